@@ -482,6 +482,45 @@ theorem group_component_is_projection (parts : String → Nat) :
    fun cfg _ _ s e hc hinv h => deleted_refines parts cfg hc s e hinv h,
    fun gp r hnd => mkGroup_refines parts gp r hnd⟩
 
+/-! ### a snapshot installed on a running server (Restore resets, then re-adds) -/
+
+/-- `metadataAPI.Reset` forgets every stream and every consumer group (regenerated list of the
+fields it re-makes) and resets the failover table. -/
+theorem reset_forgets_everything (s : State) :
+    (resetState s).streams = [] ∧ (resetState s).groups = [] ∧ Gen.Metadata.resetFailovers = true := by
+  have h1 : "m.streams" ∈ Gen.Metadata.resetClears := by decide
+  have h2 : "m.consumerGroups" ∈ Gen.Metadata.resetClears := by decide
+  exact ⟨by simp [resetState, h1], by simp [resetState, h2], by decide⟩
+
+/-- Installing a snapshot on a server in ANY state `s` is restoring it on a freshly started server
+with the same data directory: nothing of the previous metadata survives `Restore`. -/
+theorem install_is_restore (cfg : Cfg) (s : State) (snap : Snap) :
+    install cfg s snap = restore cfg { disk := s.disk, lastPublished := s.lastPublished } snap := by
+  have h := reset_forgets_everything s
+  have hr : resetState s = { ({ disk := s.disk, lastPublished := s.lastPublished } : State) with streams := [], groups := [] } := by
+    have hd : (resetState s).disk = s.disk := rfl
+    have hl : (resetState s).lastPublished = s.lastPublished := rfl
+    cases hs : resetState s with
+    | mk st gr d lp => simp [hs] at h hd hl; simp [h.1, h.2, hd, hl]
+  simp only [install, restore, hr]
+
+/-- Two servers with the same data directory that install the same snapshot end in the same state,
+whatever each of them had applied before. -/
+theorem install_discards_prior_state (cfg : Cfg) (s1 s2 : State) (snap : Snap)
+    (hd : s1.disk = s2.disk) (hl : s1.lastPublished = s2.lastPublished) :
+    install cfg s1 snap = install cfg s2 snap := by
+  rw [install_is_restore, install_is_restore, hd, hl]
+
+/-- An install never fails on a group id the server knew before (it would on a server whose `Reset`
+keeps the consumer groups registered). -/
+theorem install_never_refuses_known_group (s : State) (snap : Snap) : installErr s snap = none := by
+  have h := (reset_forgets_everything s).2.1
+  simp [installErr, h]
+
+/-- non-vacuity: a server that knows a group installs a snapshot carrying the same group -/
+example : let s := run Cfg.asFound [.create sA, .group { id := "g", coordinator := "x", epoch := 0, members := [("m1", ["a"])] }]
+    (install Cfg.asFound s (snapshot s)).groups.map (·.id) = ["g"] ∧ s.groups.map (·.id) = ["g"] := by decide
+
 /-! ### non-vacuity and recorded observations -/
 
 /-- `Valid` is satisfiable by a history that uses every kind of op, deletes and re-creates a stream
